@@ -1,4 +1,4 @@
-(* C16 — the (l_deg, m_ord) loop nest, the spline counter and the `degrees` list of interpolate_laplacian. *)
+(* C16 — generic facts about range lists, the spline counter and Horton rows; the loop nest for any iterables of the expected shape. *)
 From Coq Require Import Reals ZArith List Bool Lia.
 From P Require Import C16_base C16_gen C16_model.
 Import ListNotations.
@@ -142,12 +142,6 @@ Section Enum.
   Qed.
 End Enum.
 
-(* ---------------------------------------------------------------- instances for the generated iterables *)
-Lemma bvp_ml_length l : 0 <= l -> length (bvp_m_list l) = Z.to_nat (2 * l + 1).
-Proof. intros H. unfold bvp_m_list. rewrite app_length, !map_length, !zrange_length. lia. Qed.
-Lemma ivp_ml_length l : 0 <= l -> length (ivp_m_list l) = Z.to_nat (2 * l + 1).
-Proof. intros H. unfold ivp_m_list. rewrite app_length, !map_length, !zrange_length. lia. Qed.
-
 Definition enumeration_statement (iters : Z -> list (Z * (Z * Z))) (is_monopole : Z -> Z -> bool) (fx_index : Z -> Z) : Prop :=
   forall L, 0 <= L ->
     (* the counter takes the values 0, 1, ..., (L+1)^2 - 1 in this order: one solve per row of the harmonics *)
@@ -186,39 +180,3 @@ Proof.
     assert ((L + 1) * (L + 1) <= Z.sqrt k * Z.sqrt k) by (apply Z.mul_le_mono_nonneg; lia). lia.
 Qed.
 
-Lemma bvp_enumeration_lemma : enumeration_statement bvp_iters bvp_is_monopole bvp_fx_index.
-Proof.
-  apply (enumeration_generic bvp_l_range bvp_m_list); try reflexivity. apply bvp_ml_length.
-Qed.
-Lemma ivp_enumeration_lemma : enumeration_statement ivp_iters ivp_is_monopole ivp_fx_index.
-Proof.
-  apply (enumeration_generic ivp_l_range ivp_m_list); try reflexivity. apply ivp_ml_length.
-Qed.
-
-(* remark (not a defect: m_ord is only compared with 0 when l_deg = 0): the loop variable m_ord does NOT run over the orders
-   of the Horton rows -- for l_deg = 2 it takes the values 0, 1, 2, 2, 1, not 0, 1, -1, 2, -2. *)
-Lemma m_ord_labels_remark : bvp_m_list 2 = [0; 1; 2; 2; 1] /\ map row_order (zrange 4 9) = [0; 1; -1; 2; -2].
-Proof. split; reflexivity. Qed.
-
-(* ---------------------------------------------------------------- `degrees` of interpolate_laplacian *)
-Lemma lap_degrees_step L : 0 <= L -> lap_degrees (L + 1) = lap_degrees L ++ repeat ((L + 1) * (L + 1 + 1)) (Z.to_nat (2 * (L + 1) + 1)).
-Proof.
-  intros HL. unfold lap_degrees. rewrite (zrange_snoc 0 (L + 1)) by lia. rewrite map_app, concat_app. simpl. now rewrite app_nil_r.
-Qed.
-
-Lemma lap_degrees_lemma L : 0 <= L ->
-  lap_degrees L = map (fun k => row_degree k * (row_degree k + 1)) (zrange 0 ((L + 1) * (L + 1))).
-Proof.
-  intros HL. rewrite <- (Z2Nat.id L HL). induction (Z.to_nat L) as [|n IH].
-  - reflexivity.
-  - rewrite Nat2Z.inj_succ, <- Z.add_1_r, lap_degrees_step, IH by lia.
-    rewrite (zrange_app 0 ((Z.of_nat n + 1) * (Z.of_nat n + 1)) ((Z.of_nat n + 1 + 1) * (Z.of_nat n + 1 + 1))) by lia.
-    rewrite map_app. f_equal.
-    rewrite (map_const_repeat _ ((Z.of_nat n + 1) * (Z.of_nat n + 1 + 1))).
-    + rewrite zrange_length. f_equal. lia.
-    + intros k Hk. apply In_zrange in Hk. unfold row_degree. rewrite (sqrt_band k (Z.of_nat n + 1)) by lia. reflexivity.
-Qed.
-
-Example enumeration_nonvacuous : map fst (bvp_iters 1) = [0; 1; 2; 3] /\ map (fun it => fst (snd it)) (bvp_iters 1) = [0; 1; 1; 1]
-  /\ lap_degrees 2 = [0; 2; 2; 2; 6; 6; 6; 6; 6].
-Proof. repeat split; reflexivity. Qed.
